@@ -81,8 +81,8 @@ example : ∀ x : Rat, |id x - x| ≤ |x| / 2 ^ 53 := by
   intro x; simp only [id, sub_self, abs_zero]; positivity
 
 /-- **Saving then loading gives the laser back**: for every laser inside the quantifier
-(`Laser.ok`: distinct element names without trailing NUL, one calibration per element in element
-order, every calibration `Cal.ok`, class and configuration matching, one layer or ≥ 2 layers of
+(`Laser.ok`: at least one element, distinct element names without trailing NUL, one calibration per
+element in element order, every calibration `Cal.ok`, class and configuration matching, one layer or ≥ 2 layers of
 equal shape, packed info not ending in NUL) `load (save L)` succeeds and returns `normalise L`:
 data, dtypes, names, calibrations and configuration identical; info with tabs as spaces, without the
 old `File Path`, plus `Name` / `File Path` / `File Version`. -/
@@ -90,7 +90,7 @@ theorem load_save (fl : Rat → Rat) (hfl : ∀ x, |fl x - x| ≤ |x| / 2 ^ 53) 
     (L : Laser) (hL : L.ok = true) (hv : versionOk ver = true) (ht : noNulEnd time = true) :
     (save fl ver time L >>= load fl p) = .ok (normalise p ver L) := by
   simp only [Laser.ok, Bool.and_eq_true, decide_eq_true_eq, beq_iff_eq, List.all_eq_true] at hL
-  obtain ⟨⟨⟨⟨⟨⟨⟨hnul, hnodup⟩, hkeys⟩, hcal⟩, hkind⟩, hcfg⟩, hlayers⟩, hinfo⟩ := hL
+  obtain ⟨⟨⟨⟨⟨⟨⟨⟨hne, hnul⟩, hnodup⟩, hkeys⟩, hcal⟩, hkind⟩, hcfg⟩, hlayers⟩, hinfo⟩ := hL
   obtain ⟨htab, ⟨r7, hr7, hr7'⟩, ⟨r8, hr8, hr8'⟩⟩ := versionOk_cases ver hv
   obtain ⟨d, hd, hdf, hcons⟩ := data_roundtrip L hlayers
   have hhdr := header_unpack ver (classOf L.config) time ht
@@ -114,7 +114,8 @@ theorem load_save (fl : Rat → Rat) (hfl : ∀ x, |fl x - x| ≤ |x| / 2 ^ 53) 
       · rw [hkeys]; exact hnodup
     rw [this]
   have h1 : kVersion ≠ kClass := by decide
-  simp only [save, hd, bind, Except.bind, pure, Except.pure]
+  have hce : L.cal.isEmpty = false := cal_nonempty L hne hkeys
+  simp only [save, hce, Bool.false_eq_true, if_false, hd, bind, Except.bind, pure, Except.pure]
   simp only [load, loadHeader, loadInfo, loadCal, hhdr, dictGet, getOr, bind, Except.bind, pure, Except.pure,
     if_true, if_neg h1.symm, if_neg h1, hr7, hr8, if_neg hr7', if_neg hr8', hcalrt,
     config_roundtrip fl hfl L.config hcfg, hkindeq, hcons, hmk, unpack_pack_info L.info hinfo]
@@ -145,7 +146,7 @@ theorem load_saveV07 (fl : Rat → Rat) (hfl : ∀ x, |fl x - x| ≤ |x| / 2 ^ 5
     (L : Laser) (hL : L.ok = true) (hv : version07Ok ver = true) :
     (saveV07 fl ver L >>= load fl p) = .ok (normalise p ver L) := by
   simp only [Laser.ok, Bool.and_eq_true, decide_eq_true_eq, beq_iff_eq, List.all_eq_true] at hL
-  obtain ⟨⟨⟨⟨⟨⟨⟨hnul, hnodup⟩, hkeys⟩, hcal⟩, hkind⟩, hcfg⟩, hlayers⟩, hinfo⟩ := hL
+  obtain ⟨⟨⟨⟨⟨⟨⟨⟨hne, hnul⟩, hnodup⟩, hkeys⟩, hcal⟩, hkind⟩, hcfg⟩, hlayers⟩, hinfo⟩ := hL
   simp only [version07Ok, Bool.and_eq_true] at hv
   obtain ⟨⟨⟨hvn, h6⟩, h7⟩, h8⟩ := hv
   obtain ⟨r6, hr6, hr6'⟩ := cmpGe_cases _ _ h6
@@ -177,7 +178,7 @@ theorem load_saveV06 (fl : Rat → Rat) (hfl : ∀ x, |fl x - x| ≤ |x| / 2 ^ 5
     (hname : noNulEnd ((dictGet L.info kName).getD []) = true) :
     (saveV06 fl ver L >>= load fl p) = .ok (normaliseV06 p ver L) := by
   simp only [Laser.ok, Bool.and_eq_true, decide_eq_true_eq, beq_iff_eq, List.all_eq_true] at hL
-  obtain ⟨⟨⟨⟨⟨⟨⟨hnul, hnodup⟩, hkeys⟩, hcal⟩, hkind⟩, hcfg⟩, hlayers⟩, hinfo⟩ := hL
+  obtain ⟨⟨⟨⟨⟨⟨⟨⟨hne, hnul⟩, hnodup⟩, hkeys⟩, hcal⟩, hkind⟩, hcfg⟩, hlayers⟩, hinfo⟩ := hL
   simp only [version06Ok, Bool.and_eq_true] at hv
   obtain ⟨⟨⟨hvn, h6⟩, h7⟩, h8⟩ := hv
   obtain ⟨r6, hr6, hr6'⟩ := cmpGe_cases _ _ h6
@@ -353,5 +354,137 @@ theorem generations_fixpoint (fl : Rat → Rat) (hfl : ∀ x, |fl x - x| ≤ |x|
 example : infoNoNul [(['a','\t','b'], ['1']), (['a',' ','b'], ['2','\t']), (kFilePath, ['x', NUL])] = true
     ∧ tabFree ['l','a','s','e','r'] = true ∧ noNulEnd ['l','a','s','e','r'] = true
     ∧ versionOk ['0','.','1','0','.','2'] = true := by decide
+
+/-! ## no elements, arbitrary version strings, legacy class names, old layouts against `specOld` -/
+
+/-- **A laser without elements cannot be saved**: `pack_calibration` takes `max()` of an empty
+sequence.  (`Laser.ok` therefore asks for an element.) -/
+theorem save_no_elements (fl : Rat → Rat) (ver time : Str) (L : Laser) (h : L.cal = []) :
+    save fl ver time L = .error .valueError := by
+  simp [save, h]; rfl
+
+/-- the constructors give one calibration per element: no element, no calibration -/
+example : (mkLaser .laser [] [⟨[1, 1], [[]]⟩] [] (.raster fzero fzero fzero) []).cal = [] := rfl
+
+theorem ok_has_element (L : Laser) (h : L.ok = true) : L.fields ≠ [] := by
+  simp only [Laser.ok, Bool.and_eq_true] at h
+  intro e
+  simp [e] at h
+
+/-- **`compare_version` meets its specification on every pair of strings** (no hypothesis): the
+recursion over the zipped components equals "first decisive pair decides".  In particular components
+beyond the shorter version and components after the first difference are never parsed. -/
+theorem compareVersion_eq_spec (va vb : Str) : compareVersion va vb = compareSpec va vb :=
+  cmpComponents_eq_spec _ _
+
+/-- "0.6.0.x" (non-numeric tail beyond the three components of "0.6.0") compares equal; "1.x" is newer
+(decided before `x` is read); "0.x" and "0.6.0rc1" raise; the lengths may differ either way -/
+example : compareSpec ['0','.','6','.','0','.','x'] v060 = .ok 0 ∧ compareSpec ['1','.','x'] v060 = .ok 1
+    ∧ compareSpec ['0','.','x'] v060 = .error .valueError
+    ∧ compareSpec ['0','.','6','.','0','r','c','1'] v060 = .error .valueError
+    ∧ compareSpec ['0','.','7'] v060 = .ok 1 ∧ compareSpec ['0'] v060 = .ok 0
+    ∧ compareSpec ['0','.','5','.','x'] v060 = .ok (-1) := by decide
+
+/-- the only exception `compare_version` raises is `ValueError` -/
+theorem compareVersion_error (va vb : Str) (e : Err) (h : compareVersion va vb = .error e) : e = .valueError := by
+  rw [compareVersion_eq_spec] at h
+  unfold compareSpec at h
+  split at h
+  · cases h
+  · split at h
+    · cases h
+    · cases h; rfl
+
+/-- the legacy class names select the same loader branch as the current ones -/
+theorem loadConfig_legacy_class (fl : Rat → Rat) (c : Str) (a : CfgArr) :
+    loadConfig fl (legacyOf c) a = loadConfig fl c a := loadConfig_legacy fl c a
+
+/-- **Legacy class names.**  Any file loads to the same result (laser or exception) when its
+`_class` member carries the legacy name (`Laser` for `Raster`, `SRRLaser` for `SRR`). -/
+theorem load_legacy_class (fl : Rat → Rat) (p : PathInfo) (f : NpzFile) :
+    load fl p (f.mapCls legacyOf) = load fl p f := load_legacy_class_aux fl p f
+
+example : legacyOf (classOf (.raster fzero fzero fzero)) = ['L','a','s','e','r']
+    ∧ legacyOf (classOf (.srr exSRR)) = ['S','R','R','L','a','s','e','r']
+    ∧ legacyOf (classOf (.spot fzero fzero)) = ['S','p','o','t'] := by decide
+
+/-- a 0.7-layout (and a 0.6-layout) file written with the legacy class names loads to the same laser -/
+theorem load_saveV07_legacy (fl : Rat → Rat) (hfl : ∀ x, |fl x - x| ≤ |x| / 2 ^ 53) (p : PathInfo) (ver : Str)
+    (L : Laser) (hL : L.ok = true) (hv : version07Ok ver = true) :
+    ((saveV07 fl ver L).map (·.mapCls legacyOf) >>= load fl p) = .ok (normalise p ver L) := by
+  have := load_saveV07 fl hfl p ver L hL hv
+  cases h : saveV07 fl ver L with
+  | error e => rw [h] at this; cases this
+  | ok f =>
+    rw [h] at this
+    simp only [Except.map, bind, Except.bind] at this ⊢
+    rw [load_legacy_class]; exact this
+
+theorem load_saveV06_legacy (fl : Rat → Rat) (hfl : ∀ x, |fl x - x| ≤ |x| / 2 ^ 53) (p : PathInfo) (ver : Str)
+    (L : Laser) (hL : L.ok = true) (hv : version06Ok ver = true)
+    (hname : noNulEnd ((dictGet L.info kName).getD []) = true) :
+    ((saveV06 fl ver L).map (·.mapCls legacyOf) >>= load fl p) = .ok (normaliseV06 p ver L) := by
+  have := load_saveV06 fl hfl p ver L hL hv hname
+  cases h : saveV06 fl ver L with
+  | error e => rw [h] at this; cases this
+  | ok f =>
+    rw [h] at this
+    simp only [Except.map, bind, Except.bind] at this ⊢
+    rw [load_legacy_class]; exact this
+
+/-- files whose declared version is older than 0.6.0, or cannot be compared with it (a non-numeric
+component among the first three), are rejected with `ValueError` whatever else they contain -/
+theorem load_rejects (fl : Rat → Rat) (p : PathInfo) (f : NpzFile) (v : Str) (hh : f.header = none)
+    (hv : f.version = some v) (hlt : cmpGe v v060 = false) : load fl p f = .error .valueError := by
+  unfold cmpGe at hlt
+  cases hc : compareVersion v v060 with
+  | error e =>
+    have := compareVersion_error _ _ _ hc
+    subst this
+    simp [load, loadHeader, hh, hv, hc, bind, Except.bind]
+  | ok r =>
+    have : r = -1 := by simpa [hc] using hlt
+    subst this
+    simp [load, loadHeader, hh, hv, hc, bind, Except.bind, throw, throwThe, MonadExceptOf.throw]
+
+/-- **Old layouts against their specification.**  A 0.6-layout file describing `L` and declaring
+version `ver` loads to `specOld`: to the laser with its name when `ver` is of the 0.6 generation, and
+is rejected with `ValueError` when `ver` is older than 0.6.0 or not comparable with it.  (A 0.6-layout
+file declaring 0.7.0 or newer lacks the members that version is expected to have; the property does
+not speak about such files, `hv` excludes them.) -/
+theorem loadV06_eq_spec (fl : Rat → Rat) (hfl : ∀ x, |fl x - x| ≤ |x| / 2 ^ 53) (p : PathInfo) (ver : Str)
+    (L : Laser) (hL : L.ok = true) (hvn : noNulEnd ver = true)
+    (hname : noNulEnd ((dictGet L.info kName).getD []) = true)
+    (hv : version06Ok ver = true ∨ cmpGe ver v060 = false) :
+    (saveV06 fl ver L >>= load fl p) = specOld true p ver L := by
+  rcases hv with hv | hv
+  · rw [load_saveV06 fl hfl p ver L hL hv hname]
+    simp only [version06Ok, Bool.and_eq_true] at hv
+    rw [specOld_of_cmpGe _ _ _ _ hv.1.1.2]; rfl
+  · obtain ⟨f, hf, hh, hfv⟩ := saveV06_ok fl ver L (layersOk_of_ok L hL)
+    rw [stripNul_of_noNulEnd ver hvn] at hfv
+    rw [hf, specOld_of_not_cmpGe _ _ _ _ hv]
+    exact load_rejects fl p f ver hh hfv hv
+
+/-- the same for the 0.7 layout -/
+theorem loadV07_eq_spec (fl : Rat → Rat) (hfl : ∀ x, |fl x - x| ≤ |x| / 2 ^ 53) (p : PathInfo) (ver : Str)
+    (L : Laser) (hL : L.ok = true) (hvn : noNulEnd ver = true)
+    (hv : version07Ok ver = true ∨ cmpGe ver v060 = false) :
+    (saveV07 fl ver L >>= load fl p) = specOld false p ver L := by
+  rcases hv with hv | hv
+  · rw [load_saveV07 fl hfl p ver L hL hv]
+    simp only [version07Ok, Bool.and_eq_true] at hv
+    rw [specOld_of_cmpGe _ _ _ _ hv.1.1.2]; rfl
+  · obtain ⟨f, hf, hh, hfv⟩ := saveV07_ok fl ver L (layersOk_of_ok L hL)
+    rw [stripNul_of_noNulEnd ver hvn] at hfv
+    rw [hf, specOld_of_not_cmpGe _ _ _ _ hv]
+    exact load_rejects fl p f ver hh hfv hv
+
+/-- both branches of the hypothesis are inhabited: generation versions with a non-numeric tail or
+fewer components, rejected and uncomparable versions -/
+example : version06Ok ['0','.','6','.','0','.','x'] = true ∧ version06Ok ['0','.','6'] = true
+    ∧ version07Ok ['0','.','7','.','3','.','d','e','v','1'] = true
+    ∧ cmpGe ['0','.','5','.','9'] v060 = false ∧ cmpGe ['0','.','6','.','0','r','c','1'] v060 = false
+    ∧ cmpGe ['0','.','x'] v060 = false := by decide
 
 end Pew.Npz
